@@ -217,6 +217,15 @@ def rules(rep, m):
                 mm = re.fullmatch(r"!\(\((.+count) \+ (.+count)\) == 0\)|\(\((.+count) \+ (.+count)\) != 0\)", cd)
                 if mm:
                     lb["(%s + %s)" % tuple(g_ for g_ in mm.groups() if g_)] = 1
+            # a count that was raised by a statement that always runs before this division is at least 1 here
+            for l_, r__, k__, n__ in inv.stores(f):
+                lc_ = cx.canon(l_)
+                if not re.search(r"(->|\.)count$", lc_) or strip(l_, casts=True)["kind"] != "MemberExpr":
+                    continue
+                raised = k__ == "++" or (k__ == "+=" and (float_value(strip(r__, casts=True)) or 0) >= 1) or \
+                    (k__ == "=" and r__ is not None and re.fullmatch(r"\(%s \+ [1-9]\d*\)|\([1-9]\d* \+ %s\)" % (re.escape(lc_), re.escape(lc_)), cx.canon(r__)))
+                if raised and not any(a_ is n__ for a_ in walk(x)) and inv.executes_before(f, n__, x):
+                    lb[lc_] = max(lb.get(lc_, 0), 1)
             ok = positive(cx, f, kids(x)[1], conds, lb)
             if not ok:
                 # the merged weight sum / count of a non-empty merge (the empty case returned early)
@@ -297,7 +306,8 @@ def rules(rep, m):
                     r4.fail()
                 else:
                     r4.ok()
-        st = {re.sub(r"^\w+(\.|->)", "", cx.canon(l)): common.as_ternary(cx, f, r) for l, r, k, n_ in inv.stores(f) if r is not None}
+        st = {re.sub(r"^\w+(\.|->)", "", cx.canon(l)): common.as_ternary(cx, f, r) for l, r, k, n_ in inv.stores(f)
+              if r is not None and strip(l, casts=True)["kind"] == "MemberExpr"}
         p1, p2 = f.params[1]["name"], f.params[2]["name"]
         def fld(p, x):
             return "%s->%s" % (p, x)
